@@ -272,3 +272,5 @@ _add("C12", "Proved in addition: modify(symbol, <quantity of the same registry>)
 _add("C19", "Proved in addition: the numpy.isclose / numpy.allclose handlers reach NumPy only with operands in equal units or "
             "after converting the second operand (merge guard), array_equal / array_equiv answer without NumPy only for "
             "operands whose units differ, also when the same object is passed twice.")
+_add("C01", "arctan2 is under contract like the other commensurability-requiring ufuncs (quantity / bare scalar operands).")
+_add("C04", "arctan2: the angle of the SI magnitudes as a pure number (invariance under a common positive rescaling assumed).")
